@@ -189,7 +189,8 @@ def _expression(expr):
 
     if isinstance(expr, blackbirdParser.VariableLabelContext):
         if expr.REGREF():
-            return Symbol(expr.getText())
+            # q007 and q7 are the same register
+            return Symbol("q{}".format(int(expr.getText()[1:])))
 
         if expr.getText() not in _VAR:
             token = expr.start
